@@ -11,9 +11,11 @@ import (
 )
 
 // Constants: every constant of internal/constants, evaluated exactly by go/types.
-//   ints    -> def <Name> : Int
-//   floats  -> def <Name> : Wtf.Q        (exact rational)
-//   strings -> def <Name> : String
+//
+//	ints    -> def <Name> : Int
+//	floats  -> def <Name> : Wtf.Q        (exact rational)
+//	strings -> def <Name> : String
+//
 // Durations are ints in nanoseconds.
 func init() {
 	register("0_constants", func(x *X) {
